@@ -1,8 +1,30 @@
 //! verif-harness: generates cases and runs them on the implementation.
 //!   harness gen <PROP> --seed S --n N --tier quick|thorough   > cases
 //!   harness run <PROP> < cases                                > cases with OUT lines
-mod alloc; mod rng; mod tok; mod resp; mod srv; mod c20; mod c01; mod c09; mod c10;
+//!   harness judge <PROP> < cases with OUT lines               > FAIL lines (property oracle)
+//!   harness serve --port P --dir D [--pass PW] [--aof]        (the server under test, child process)
+mod alloc; mod rng; mod tok; mod resp; mod srv;
+mod c01;
+mod c02;
+mod c03;
+mod c04;
+mod c05;
+mod c06;
+mod c07;
+mod c08;
+mod c09;
+mod c10;
+mod c12;
+mod c13;
+mod c14;
+mod c15;
+mod c16;
+mod c17;
+mod c18;
+mod c19;
+mod c20;
 use std::io::{self, BufWriter, Write};
+use tok::Case;
 
 #[global_allocator]
 static A: alloc::Counting = alloc::Counting;
@@ -11,10 +33,78 @@ fn arg(args: &[String], name: &str, def: &str) -> String {
     args.iter().position(|a| a == name).and_then(|p| args.get(p + 1)).cloned().unwrap_or(def.to_string())
 }
 
+// one line per property: keep sorted
+fn gen(prop: &str, seed: u64, n: usize, tier: &str) -> Option<Vec<Case>> {
+    Some(match prop {
+        "C01" => c01::gen(seed, n, tier),
+        "C02" => c02::gen(seed, n, tier),
+        "C03" => c03::gen(seed, n, tier),
+        "C04" => c04::gen(seed, n, tier),
+        "C05" => c05::gen(seed, n, tier),
+        "C06" => c06::gen(seed, n, tier),
+        "C07" => c07::gen(seed, n, tier),
+        "C08" => c08::gen(seed, n, tier),
+        "C09" => c09::gen(seed, n, tier),
+        "C10" => c10::gen(seed, n, tier),
+        "C12" => c12::gen(seed, n, tier),
+        "C13" => c13::gen(seed, n, tier),
+        "C14" => c14::gen(seed, n, tier),
+        "C15" => c15::gen(seed, n, tier),
+        "C16" => c16::gen(seed, n, tier),
+        "C17" => c17::gen(seed, n, tier),
+        "C18" => c18::gen(seed, n, tier),
+        "C19" => c19::gen(seed, n, tier),
+        "C20" => c20::gen(seed, n, tier),
+        _ => return None,
+    })
+}
+fn run(prop: &str, c: &Case) -> Option<Case> {
+    Some(match prop {
+        "C01" => c01::run(c),
+        "C02" => c02::run(c),
+        "C03" => c03::run(c),
+        "C04" => c04::run(c),
+        "C05" => c05::run(c),
+        "C06" => c06::run(c),
+        "C07" => c07::run(c),
+        "C08" => c08::run(c),
+        "C09" => c09::run(c),
+        "C10" => c10::run(c),
+        "C12" => c12::run(c),
+        "C13" => c13::run(c),
+        "C14" => c14::run(c),
+        "C15" => c15::run(c),
+        "C16" => c16::run(c),
+        "C17" => c17::run(c),
+        "C18" => c18::run(c),
+        "C19" => c19::run(c),
+        "C20" => c20::run(c),
+        _ => return None,
+    })
+}
+fn judge(prop: &str, c: &Case) -> Vec<String> {
+    match prop {
+        "C02" => c02::judge(c, &c.outs),
+        "C03" => c03::judge(c, &c.outs),
+        "C04" => c04::judge(c, &c.outs),
+        "C06" => c06::judge(c, &c.outs),
+        "C09" => c09::judge(c, &c.outs),
+        "C10" => c10::judge(c, &c.outs),
+        "C12" => c12::judge(c, &c.outs),
+        "C13" => c13::judge(c, &c.outs),
+        "C14" => c14::judge(c, &c.outs),
+        "C15" => c15::judge(c, &c.outs),
+        "C16" => c16::judge(c, &c.outs),
+        "C19" => c19::judge(c, &c.outs),
+        "C20" => c20::judge(c, &c.outs),
+        _ => vec![],
+    }
+}
+
 fn main() {
     let args: Vec<String> = std::env::args().collect();
     if args.len() >= 2 && args[1] == "serve" { srv::serve(&args); return; }
-    if args.len() < 3 { eprintln!("usage: harness gen|run PROP [--seed S] [--n N] [--tier T]"); std::process::exit(2); }
+    if args.len() < 3 { eprintln!("usage: harness gen|run|judge PROP [--seed S] [--n N] [--tier T]"); std::process::exit(2); }
     let (mode, prop) = (args[1].as_str(), args[2].as_str());
     let seed: u64 = arg(&args, "--seed", "1").parse().unwrap_or(1);
     let n: usize = arg(&args, "--n", "100").parse().unwrap_or(100);
@@ -25,22 +115,24 @@ fn main() {
         else { Box::new(BufWriter::new(io::stdout())) };
     match mode {
         "gen" => {
-            let cases = match prop { "C20" => c20::gen(seed, n, &tier), "C01" => c01::gen(seed, n, &tier), "C09" => c09::gen(seed, n, &tier), "C10" => c10::gen(seed, n, &tier), _ => { eprintln!("no generator for {}", prop); std::process::exit(2) } };
+            let cases = gen(prop, seed, n, &tier).unwrap_or_else(|| { eprintln!("no generator for {}", prop); std::process::exit(2) });
             for c in &cases { tok::write_case(&mut w, c); }
         }
         "run" => {
             let cases = tok::read_cases(io::stdin().lock());
             for c in &cases {
-                let r = match prop { "C20" => c20::run(c), "C01" => c01::run(c), "C09" => c09::run(c), "C10" => c10::run(c), _ => { eprintln!("no runner for {}", prop); std::process::exit(2) } };
+                let r = run(prop, c).unwrap_or_else(|| { eprintln!("no runner for {}", prop); std::process::exit(2) });
                 tok::write_case(&mut w, &r);
             }
         }
         "judge" => {
             let cases = tok::read_cases(io::stdin().lock());
-            for c in &cases {
-                let fails = match prop { "C20" => c20::judge(c, &c.outs), "C09" => c09::judge(c, &c.outs), "C10" => c10::judge(c, &c.outs), _ => vec![] };
-                for f in fails { writeln!(w, "{}", f).unwrap(); }
-            }
+            for c in &cases { for f in judge(prop, c) { writeln!(w, "{}", f).unwrap(); } }
+        }
+        "tally" => {   // developer aid: command x outcome-class tally of run cases
+            let cases = tok::read_cases(io::stdin().lock());
+            let lines = match prop { "C04" => c04::tally(&cases), _ => vec![] };
+            for l in lines { writeln!(w, "{}", l).unwrap(); }
         }
         _ => { eprintln!("bad mode"); std::process::exit(2); }
     }
